@@ -331,6 +331,56 @@ export async function run(ctx) {
         await judge(ctx, { files: { "entry.ts": text }, settings: { string_formats: [], number_formats: [] } }, `degenerate:${dn}/${pn}`);
       }
   }
+  // declarations evaluated in another file than the one that mentions them: every diagnostic raised
+  // inside the declaration must name the declaring file (the entry file is kept much shorter than
+  // the offsets inside the declaring file)
+  {
+    const members = [
+      ["auto-numbered", "A, B, C"],
+      ["literal", 'A = "a", B = "b"'],
+      ["numeric", "A = 1, B = 2"],
+      ["own-module-const", "A = LOWEST, B = 2"],
+      ["own-module-const-string", "A = NAME, B = `b`"],
+      ["previous-member", "A = 1, B = A"],
+      ["negative", "A = -1, B = +2"],
+      ["computed", "A = 1 << 2, B = A | 1"],
+      ["string-concat", 'A = "a" + "b"'],
+      ["call", "A = f()"],
+      ["mixed-auto-after-string", 'A = "a", B'],
+    ];
+    const uses = [
+      ["as-type", (n) => n],
+      ["member", (n) => `${n}.A`],
+      ["typeof", (n) => `typeof ${n}`],
+      ["keyof-typeof", (n) => `keyof typeof ${n}`],
+      ["in-object", (n) => `{ level: ${n}; other?: ${n}.A }`],
+      ["record-key", (n) => `Record<${n}, number>`],
+    ];
+    const styles = [
+      ["named", (u) => [`import { E } from "./levels";`, u("E")]],
+      ["renamed", (u) => [`import { E as Lvl } from "./levels";`, u("Lvl")]],
+      ["namespace", (u) => [`import * as L from "./levels";`, u("L.E")]],
+      ["re-export", (u) => [`import { E } from "./hop";`, u("E")]],
+      ["import-type", (u) => ["", u('import("./levels").E')]],
+    ];
+    const padding = Array.from({ length: 12 }, (_, i) => `// line ${i} of a module that is much longer than the entry file, so that its offsets do not exist there`).join("\n");
+    let k = 0;
+    for (const [mn, m] of members)
+      for (const [un, u] of uses)
+        for (const [sn, st] of styles) {
+          k++;
+          if (k % ctx.of !== ctx.shard) continue;
+          if (sn === "import-type" && un !== "as-type" && un !== "in-object" && un !== "record-key") continue; // import("..").E is a type position only
+          const [imp, use] = st(u);
+          const files = {
+            "entry.ts": `${imp}\nexport const P = parse.buildParsers<{ X: ${use} }>();\n`,
+            "levels.ts": `${padding}\nconst LOWEST = 0;\nconst NAME = "n";\ndeclare function f(): number;\nexport enum E { ${m} }\nexport const V = { level: E.A };\n`,
+            "hop.ts": `export { E } from "./levels";\n`,
+          };
+          ctx.count("cross-file-enum-grid");
+          await judge(ctx, { files, settings: { string_formats: [], number_formats: [] } }, `cross-file-enum:${mn}/${un}/${sn}`);
+        }
+  }
   // supported programs (success path: load + closure walk on realistic output)
   const nSup = ctx.share(1600, 24000);
   for await (const item of corpus(ctx, { label: "C04-supported", count: nSup, features: {} })) {
